@@ -33,7 +33,7 @@ CONSTANTS NP,        \* providers per generated configuration
           GeoSets,   \* provider / policy geolocation sets used by the generators (sets of single bits)
           PolGeoSets,\* model checking: policy geolocation sets
           McMixed,   \* model checking: values of the `mixed` flag of the plan requirement
-          McMoreSel, \* model checking: extra <<mode, selected set>> pairs
+          McMoreSel, \* model checking: TRUE adds the <<mode, selected set>> pairs <<MIXED, {}>> and <<EXCLUSIVE, {1}>>
           Kinds,     \* service kinds of a provider per interface: bit0 add-on "a", bit1 extension "e", bit2 add-on "b", bit3 ext "f"
           CostBase,  \* 10000 in the code (maxGeoLatency); small in abstract model-checking configs
           Den,       \* common denominator of geo costs (odd)
@@ -254,7 +254,7 @@ McProvSeqs == {f \in [1..NP -> McProv] : \A i \in 1..(NP - 1) : ProvKey(f[i]) <=
 Freeze(f, fz) == [i \in 1..NP |-> IF i = fz THEN [f[i] EXCEPT !.st = "frozen"] ELSE f[i]]
 McReq == {[ifc |-> "x", ad |-> "a", ext |-> <<"e">>, mx |-> m2] : m2 \in McMixed}
 McPol == {[on |-> TRUE, gl |-> FALSE, geo |-> g, max |-> m, mode |-> ms[1], sel |-> ms[2], reqs |-> r] :
-            g \in PolGeoSets, m \in 2..MaxSlots, ms \in {<<0, {}>>, <<1, {1, 2}>>, <<2, {2, 3}>>} \cup McMoreSel,
+            g \in PolGeoSets, m \in 2..MaxSlots, ms \in {<<0, {}>>, <<1, {1, 2}>>, <<2, {2, 3}>>} \cup (IF McMoreSel THEN {<<1, {}>>, <<2, {1}>>} ELSE {}),
             r \in {<<>>} \cup {<<q>> : q \in McReq}}
 \* C01 design level: plan + two project policies with one requirement each out of {x,y} x {a} x {<<>>,<<e>>} x BOOLEAN
 UProv == [stake : {1}, geo : {{1}}, st : {"ok"}, kx : {0, 3}, ky : {0, 3}]
